@@ -34,6 +34,42 @@ func reused(key string, n int, clean []byte, replay interface{}, enc func(b []by
 	}
 }
 
+// stable: values handed out by address getters are values, not windows onto the header:
+// rewriting the header afterwards must not change what was read before.
+func stable() {
+	r := fw.NewRand(run.Seed, "C15", "stable")
+	for i := 0; i < 200; i++ {
+		a, b := r.Bytes(16), r.Bytes(16)
+		h6 := header.IPv6(make([]byte, 40))
+		h6.Encode(&header.IPv6Fields{PayloadLength: 0, NextHeader: 6, HopLimit: 1, SrcAddr: tcpip.Address(a), DstAddr: tcpip.Address(b)})
+		src, dst := h6.SourceAddress(), h6.DestinationAddress()
+		h6.SetSourceAddress(dst)
+		h6.SetDestinationAddress(src)
+		if string(src) != string(a) || string(dst) != string(b) || string(h6.SourceAddress()) != string(b) || string(h6.DestinationAddress()) != string(a) {
+			bad("ipv6/getters/value-changes-with-buffer", fmt.Sprintf("source %x / destination %x were read, then the two were swapped in place: the values read before now are %x / %x, the header holds %x / %x", a, b, []byte(src), []byte(dst), []byte(h6.SourceAddress()), []byte(h6.DestinationAddress())), nil)
+			return
+		}
+		h4 := header.IPv4(make([]byte, 20))
+		h4.Encode(&header.IPv4Fields{IHL: 20, TotalLength: 20, TTL: 1, Protocol: 6, SrcAddr: tcpip.Address(a[:4]), DstAddr: tcpip.Address(b[:4])})
+		s4, d4 := h4.SourceAddress(), h4.DestinationAddress()
+		h4.SetSourceAddress(d4)
+		h4.SetDestinationAddress(s4)
+		if string(s4) != string(a[:4]) || string(d4) != string(b[:4]) || string(h4.SourceAddress()) != string(b[:4]) || string(h4.DestinationAddress()) != string(a[:4]) {
+			bad("ipv4/getters/value-changes-with-buffer", fmt.Sprintf("source %x / destination %x read, swapped in place: values read before are now %x / %x", a[:4], b[:4], []byte(s4), []byte(d4)), nil)
+			return
+		}
+		eb := make([]byte, 14)
+		header.Ethernet(eb).Encode(&header.EthernetFields{SrcAddr: tcpip.LinkAddress(a[:6]), DstAddr: tcpip.LinkAddress(b[:6]), Type: 0x0800})
+		es, ed := header.Ethernet(eb).SourceAddress(), header.Ethernet(eb).DestinationAddress()
+		header.Ethernet(eb).Encode(&header.EthernetFields{SrcAddr: ed, DstAddr: es, Type: 0x0800})
+		if string(es) != string(a[:6]) || string(ed) != string(b[:6]) {
+			bad("eth/getters/value-changes-with-buffer", fmt.Sprintf("source %x / destination %x read, header rewritten: values read before are now %x / %x", a[:6], b[:6], []byte(es), []byte(ed)), nil)
+			return
+		}
+		run.Case(fw.Hash("stable", i%8), true)
+	}
+}
+
 func guard(key string, replay interface{}, f func()) {
 	defer func() {
 		if r := recover(); r != nil {
@@ -627,6 +663,17 @@ func tcpCodec() {
 				if h.SourcePort() != t.SrcPort || h.DestinationPort() != t.DstPort || h.SequenceNumber() != t.Seq || h.AckNumber() != t.Ack || int(h.DataOffset()) != hl || h.Flags() != want[13] || h.WindowSize() != t.Window || h.Checksum() != t.Csum || !bytes.Equal(h.Options(), t.RawOpts) || len(h.Payload()) != 0 {
 					bad("tcp/getters/"+names[w], fmt.Sprintf("getters disagree with RFC-built header %x", want), rep)
 				}
+				// the four bits next to the data offset (reserved, NS) as another encoder may set
+				// them: the data offset is the high nibble only
+				for _, low := range []byte{0x1, 0x4, 0x8, 0xf} {
+					w2 := append(append([]byte(nil), want...), 0xAA, 0xBB, 0xCC)
+					w2[12] |= low
+					h2 := header.TCP(w2)
+					if int(h2.DataOffset()) != hl || !bytes.Equal(h2.Options(), t.RawOpts) || !bytes.Equal(h2.Payload(), []byte{0xAA, 0xBB, 0xCC}) {
+						bad("tcp/getters/reserved-bits", fmt.Sprintf("header %x with the low nibble of octet 12 set to %#x: DataOffset()=%d (RFC 793: %d), options %x, payload %x", w2[:hl], low, h2.DataOffset(), hl, h2.Options(), h2.Payload()), rep)
+						break
+					}
+				}
 			})
 			run.Case(fw.Hash("tcp", w, v), true)
 		}
@@ -1010,6 +1057,7 @@ func TestC15(t *testing.T) {
 	checksums()
 	codecs()
 	tcpCodec()
+	stable()
 	tcpOptions()
 	dns()
 	run.Sample(map[string]interface{}{"checksum": "len 5 all-ones initial 0xffff", "got": header.Checksum([]byte{255, 255, 255, 255, 255}, 0xffff), "reference": rfc.Sum16([]byte{255, 255, 255, 255, 255}, 0xffff)})
